@@ -10,7 +10,7 @@ import itertools
 import numpy as np
 import z3
 
-from yv.engine import explore, harness, real
+from yv.engine import npshim, explore, harness, real
 from yv.engine.real import S, Ctx
 from yv.props import common as cm
 from yv.refs import xs as xsref
@@ -71,9 +71,11 @@ def params(ctx=None, values=None):
         M2h = ctx.var("M2h", 0, None, wlo=0.5, whi=2)
         return dict(x=ctx.var("x", 0, 1, hi_open=False), y=ctx.var("y", 0, 1, hi_open=False),
                     Q2=ctx.var("Q2", 0, None, wlo=1, whi=200), M2h=M2h, Mh=np.sqrt(M2h),
-                    M2W=ctx.var("M2W", 0, None, wlo=1000, whi=7000), GF=ctx.var("GF", 0, None, wlo=1e-5, whi=2e-5))
+                    M2W=ctx.var("M2W", 0, None, wlo=1000, whi=7000), GF=ctx.var("GF", 0, None, wlo=1e-5, whi=2e-5),
+                    pol=ctx.var("pol", -1, 1, lo_open=False, hi_open=False))
     v = dict(values)
     v["Mh"] = float(np.sqrt(v["M2h"]))
+    v.setdefault("pol", 0.0)
     return v
 
 
@@ -83,7 +85,10 @@ def pairs_for(case, V, mk):
     from yadism.xs import CrossSection
 
     kind, flav, pid = case["kind"], case["flavor"], case["pid"]
-    cc = cm.make_coupling(cm.ew_params(values={}), "NC", pid)
+    # the beam polarisation of the run is symbolic: the documented combinations do not depend on it (it lives in the structure functions)
+    P = cm.ew_params(values={})
+    P["pol"] = V["pol"]
+    cc = cm.make_coupling(P, "NC", pid)
     cfg = cm.make_configs(cc, M2target=V["M2h"], GF=V["GF"], M2W=V["M2W"])
     runner = FakeRunner(cfg, mk)
     xs = CrossSection(on.ObservableName(f"{kind}_{flav}"), runner)
@@ -229,7 +234,9 @@ def run(chk, only=None):
                 return names[name]
 
             def body():
-                return pairs_for(case, params(ctx), mk)
+                # numpy of exs.py through the shim: a tolerance test (np.isclose) on a coefficient is a path, explored with the single-flip policy
+                with npshim.patched((exs, "np", npshim.NPShim())):
+                    return pairs_for(case, params(ctx), mk)
 
             ex = explore.Explorer(ctx, max_paths=16, timeout_ms=5000)
             paths = ex.run(body)
@@ -246,7 +253,7 @@ def run(chk, only=None):
                     def rp(model):
                         asg = explore.model_to_assign(ctx, model)
                         g = lambda n: float(asg.get(n, ctx.assign.get(n, 1)))
-                        vals = {k: g(k) for k in ("x", "y", "Q2", "M2h", "M2W", "GF")}
+                        vals = {k: g(k) for k in ("x", "y", "Q2", "M2h", "M2W", "GF", "pol")}
                         tens = {n[2:]: g(n) for n in ctx.vars if n.startswith("T|")}
                         return "case", dict(case=case, values=vals, tensors=tens, label=lab)
                     return rp
